@@ -265,7 +265,7 @@ class C03Bounded(Bounded):
         mods = ["all", "neq", "base64", "base64offset", "cased", "cidr", "contains", "startswith", "endswith", "exists", "expand", "fieldref", "gt", "lte", "i", "m", "s", "re", "utf16", "utf16be",
                 "utf16le", "wide", "windash", "hour", "year"]
         values = ["a", "a*", "*a", "a?b", "a\\*b", "100\\% x", "%x%", "a%x%b\\%y", "100\\% *%x%", "\\%T\\%*%x%", "%x%?5\\%", "-p", "a -p/q", "a-b c/d", "tool -übersicht", "maß-stab", "/x", "ä", "10.0.0.0/8", "^a.*b$", "", "cmd -a * -b", "x -a?y -b -c*z -d", "foo[0-9]*", "ba*", "(ab|cd)*", "a\\s*", "x.*", "^x", "y$",
-                  5, 1.5, True, None, ["a", "b*"], ["-x", "%y%"], [1, 2], ["fo+bar", 5], [None, "a"], [True, "x", 1.5], []]
+                  5, 1.5, 1700000000.5, 2.5e-07, 1234.0000005, True, None, ["a", "b*"], ["-x", "%y%"], [1, 2], ["fo+bar", 5], [None, "a"], [True, "x", 1.5], []]
         maxlen = 2 if tier == "quick" else 3
         ev = nontriv = 0
         seen, fails, samples = {}, [], []
